@@ -533,5 +533,52 @@ def retsM (L : Listener) (d : Dir) : DuplexM → List QOp → List Nat
   | s, op :: rest =>
     if op.dir = d then (stepM L s op).2 :: retsM L d (stepM L s op).1 rest else retsM L d (stepM L s op).1 rest
 
+/-! ### Where a call's reservation is stamped (calls that sit blocked in the socket)
+
+So far a call's I/O happens at one instant, which is also the stamp of its reservation.  A `Read`
+whose peer sends nothing (a `Write` whose peer takes nothing) sits in the socket from `start` to
+`done`; the bytes move at `done`.  `ratelimit/conn.go` calls `WaitN` *after* the embedded
+`net.Conn`'s call has returned, so the reservation is stamped with a clock reading taken at or
+after `done` (`connStampsAtStart = false`); the limiter is shared by all connections of the
+listener, so calls of other connections reserve between `start` and `done`.  The alternative - a
+stamp taken when the call was entered - is kept beside the code's choice (`SOp.res true`). -/
+
+structure SOp where
+  start : Nat
+  done : Nat
+  c : Nat
+  n : Nat
+  deriving DecidableEq, Repr
+
+/-- the reservation a call makes, stamped with the time its I/O returned or with the time the
+    call was entered -/
+def SOp.res (atStart : Bool) (op : SOp) : BOp :=
+  { t := if atStart then op.start else op.done, c := op.c, n := op.n }
+
+/-- `Conn.Read/Write`: `n, err = c.Conn.Read(b)` first, `WaitN(ctx, n)` then -/
+def connStampsAtStart : Bool := false
+
+/-- every reservation that reaches the limiter is stamped at or after the limiter's last event -/
+def stampsMonotone (l : Limiter) : RunSt → List BOp → Bool
+  | _, [] => true
+  | s, op :: rest =>
+    (decide (op.n = 0) || decide (l.burst < op.n) || decide (s.st.last ≤ op.t)) &&
+      stampsMonotone l (stepB l s op) rest
+
+/-- calls listed in the order in which their I/O completes; a call starts before it completes -/
+def doneOrdered : Nat → List SOp → Bool
+  | _, [] => true
+  | now, op :: rest => decide (now ≤ op.done) && decide (op.start ≤ op.done) && doneOrdered op.done rest
+
+/-- a connection enters its next call only when the I/O of its previous one has completed -/
+def startsAfterDone : List SOp → Bool
+  | [] => true
+  | op :: rest => rest.all (fun o => o.c != op.c || decide (op.done ≤ o.start)) && startsAfterDone rest
+
+/-- bytes whose I/O completed in `[t0, t1]` -/
+def bytesDone : List SOp → Nat → Nat → Nat
+  | [], _, _ => 0
+  | op :: rest, t0, t1 => (if t0 ≤ op.done ∧ op.done ≤ t1 then op.n else 0) + bytesDone rest t0 t1
+
 end C20
 end FwdVerif
